@@ -5,6 +5,7 @@
 //!   pqsim worker|replay-inner|shrink ...    internal
 
 mod alloc;
+mod crash;
 mod engines;
 mod exec;
 mod hashers;
